@@ -73,9 +73,43 @@ def tables(protocol, message):
         raise TranslatorError('authDelimiter is not bytes: %r' % (d,))
     t['authDelimiter'] = list(d)
 
+    found, how = {}, {}
+    try:
+        _ast_facts(cls, found)
+    except TranslatorError as e:
+        # a shape this translator does not know: fall back to probing the behaviour (below)
+        found = {}
+        how['ast'] = 'not recognised (%s)' % (str(e)[:120],)
+    keys = ('minHeader', 'littleMarker', 'bodyLenSlice', 'harrLenSlice', 'padModulus', 'remainderSlack',
+            'lineCheck')
+    probed = None
+    for k in keys:
+        if len(found.get(k, [])) == 1:
+            t[k] = found[k][0]
+            how[k] = 'AST'
+        else:
+            if probed is None:
+                probed = _probe(protocol, t)
+            if probed.get(k) is None:
+                raise TranslatorError('dataReceived: %s neither recognised in the AST (%r) nor measurable by probing'
+                                      % (k, found.get(k)))
+            t[k] = probed[k]
+            how[k] = 'probed'
+    # control-flow facts: always measured on the running code (an AST reading is kept as a comment)
+    flow = _probe_flow(protocol, t)
+    t.update(flow)
+    t['how'] = how
+
+    codes = [c for c, n in message._hcode.items() if n == 'unix_fds']
+    if len(codes) != 1:
+        raise TranslatorError('message._hcode: expected exactly one code for unix_fds, found %r' % (codes,))
+    t['unixFdsCode'] = codes[0]
+    return t
+
+
+def _ast_facts(cls, found):
     src = textwrap.dedent(inspect.getsource(cls.dataReceived))
     fn = ast.parse(src).body[0]
-    found = {}
     for node in ast.walk(fn):
         # buffer_len >= N
         if (isinstance(node, ast.Compare) and isinstance(node.left, ast.Name) and node.left.id == 'buffer_len'
@@ -144,17 +178,161 @@ def tables(protocol, message):
                     and _is_self_attr(node.comparators[0], 'MAX_AUTH_LENGTH')):
                 raise TranslatorError('line length check has an unexpected shape: %s' % ast.dump(node))
             found.setdefault('lineCheck', []).append(1)
-    for k in ('minHeader', 'littleMarker', 'bodyLenSlice', 'harrLenSlice', 'padModulus', 'remainderSlack',
-              'lineCheck'):
-        if len(found.get(k, [])) != 1:
-            raise TranslatorError('dataReceived: expected exactly one %s, found %r' % (k, found.get(k)))
-        t[k] = found[k][0]
 
-    codes = [c for c, n in message._hcode.items() if n == 'unix_fds']
-    if len(codes) != 1:
-        raise TranslatorError('message._hcode: expected exactly one code for unix_fds, found %r' % (codes,))
-    t['unixFdsCode'] = codes[0]
-    return t
+
+# ----------------------------------------------------------------------------- behavioural fallback
+def _mk(protocol, authenticated, script=''):
+    """A BasicDBusProtocol on a StringTransport with a scripted stub authenticator."""
+    from twisted.internet.testing import StringTransport
+    from zope.interface import implementer
+    from txdbus import error
+
+    @implementer(protocol.IDBusAuthenticator)
+    class Stub:
+        def __init__(self, *a):
+            self.i, self.ok = 0, False
+
+        def beginAuthentication(self, p):
+            pass
+
+        def handleAuthMessage(self, line):
+            o = script[self.i] if self.i < len(script) else 'c'
+            self.i += 1
+            if o == 'f':
+                raise error.DBusAuthenticationFailed('x')
+            self.ok = (o == 's')
+
+        def authenticationSucceeded(self):
+            return self.ok
+
+        def getGUID(self):
+            return b'g'
+
+    class P(protocol.BasicDBusProtocol):
+        authenticator = Stub
+
+        def rawDBusMessageReceived(self, raw):
+            self.got.append(bytes(raw))
+    p = P()
+    p.got = []
+    p.makeConnection(StringTransport())
+    if authenticated:
+        p._authenticated = True
+    return p
+
+
+def _next_len(protocol, header):
+    p = _mk(protocol, True)
+    p.dataReceived(bytes(header))
+    # a message that is already complete has been delivered (and the cache reset)
+    return p._nextMsgLen or (len(p.got[0]) if p.got else 0)
+
+
+def _probe(protocol, t):
+    """Measure the constants of the binary branch and of the line-length checks on the running code."""
+    r = {}
+    base = bytearray(16)
+    # little marker: first bytes under which byte 4 is the LOW byte of the body length
+    lit = []
+    for b0 in range(256):
+        h = bytearray(base)
+        h[0] = b0
+        h[4] = 1
+        if _next_len(protocol, h) == t['MSG_HDR_LEN'] + 1:
+            lit.append(b0)
+    if len(lit) == 1:
+        r['littleMarker'] = lit[0]
+        L = lit[0]
+        z = bytearray(base)
+        z[0] = L
+        n0 = _next_len(protocol, z)
+        # which byte positions feed a length, and with which weight 256^j (the value 8 needs no padding)
+        weight = {}
+        for i in range(1, 16):
+            h = bytearray(z)
+            h[i] = 8
+            d = _next_len(protocol, h) - n0
+            for j in range(0, 5):
+                if d == 8 * 256 ** j:
+                    weight[i] = j
+        # contiguous runs with weights 0, 1, 2, ... ; the run whose low byte, set to 1, adds exactly 1 is the
+        # body length, the run whose low byte adds 1 + padding is the length of the header field array
+        starts = [i for i in weight if weight[i] == 0]
+        for a0 in starts:
+            n = 0
+            while weight.get(a0 + n) == n:
+                n += 1
+            h = bytearray(z)
+            h[a0] = 1
+            d = _next_len(protocol, h) - n0
+            if d == 1:
+                r.setdefault('bodyLenSlice', (a0, a0 + n))
+            elif d > 1:
+                r.setdefault('harrLenSlice', (a0, a0 + n))
+        if 'harrLenSlice' in r:
+            a = r['harrLenSlice'][0]
+            pads = []
+            for v in range(0, 64):
+                h = bytearray(z)
+                h[a] = v
+                pads.append(_next_len(protocol, h) - t['MSG_HDR_LEN'] - v)
+            for M in range(1, 33):
+                if all(pads[v] == (-(t['MSG_HDR_LEN'] + v)) % M for v in range(64)):
+                    r['padModulus'] = M
+                    break
+        # smallest number of buffered bytes at which the length is computed
+        for n in range(0, 40):
+            p = _mk(protocol, True)
+            hh = bytearray(40)
+            hh[0] = L
+            hh[4] = 200
+            p.dataReceived(bytes(hh[:n]))
+            if p._nextMsgLen != 0:
+                r['minHeader'] = n
+                break
+    # line mode: remainder limit and line limit
+    MAX, D = t['MAX_AUTH_LENGTH'], len(t['authDelimiter'])
+
+    def closes_remainder(n):
+        p = _mk(protocol, False)
+        p.dataReceived(b'a' * n)
+        return p.transport.disconnecting
+
+    def closes_line(n):
+        p = _mk(protocol, False)
+        p.dataReceived(b'a' * n + bytes(t['authDelimiter']))
+        return p.transport.disconnecting
+    lo = [n for n in range(MAX - 3, MAX + D + 4) if closes_remainder(n)]
+    if lo and all(closes_remainder(n) for n in range(lo[0], MAX + D + 4)):
+        r['remainderSlack'] = MAX + D + 1 - lo[0]       # closes when len > MAX + D - K
+    ll = [n for n in range(MAX - 3, MAX + 4) if closes_line(n)]
+    if ll and ll[0] == MAX + 1:
+        r['lineCheck'] = 1
+    return r
+
+
+def _probe_flow(protocol, t):
+    """Control-flow facts the model hand-mirrors, measured on the running code."""
+    import sys
+    L = bytes([108]) + bytes(15)            # a 16-byte message when 'l' is the little marker
+    r = {}
+    # the binary branch iterates: more coalesced messages than the interpreter allows nested calls
+    p = _mk(protocol, True)
+    try:
+        p.dataReceived(L * (sys.getrecursionlimit() + 200))
+        r['binaryBranchIterates'] = len(p.got) == sys.getrecursionlimit() + 200
+    except RecursionError:
+        r['binaryBranchIterates'] = False
+    d = bytes(t['authDelimiter'])
+    # the hand-off re-joins exactly what follows the final line (lines[lineno + 1:] + [buffer])
+    p = _mk(protocol, False, 'cs')
+    p.dataReceived(b'A' + d + b'A' + d + b'B' + d + b'C')
+    r['handoffRejoinsRest'] = bool(p._authenticated) and bytes(p._buffer) == b'B' + d + b'C' and not p.got
+    # the remainder length check is not applied to message bytes behind the final line (for..else position)
+    p = _mk(protocol, False, 's')
+    p.dataReceived(b'A' + d + b'a' * (t['MAX_AUTH_LENGTH'] + len(d) + 50))
+    r['remainderCheckAfterLoop'] = bool(p._authenticated) and not p.transport.disconnecting
+    return r
 
 
 def emit(repo):
@@ -188,6 +366,14 @@ def emit(repo):
     out.append('def remainderSlack : Nat := %d' % t['remainderSlack'])
     out.append('/-- header field code of `unix_fds` in `message._hcode` -/')
     out.append('def unixFdsCode : Nat := %d' % t['unixFdsCode'])
+    out.append('/-- measured: the binary branch delivers more coalesced messages than the interpreter allows nested calls -/')
+    out.append('def binaryBranchIterates : Bool := %s' % ('true' if t['binaryBranchIterates'] else 'false'))
+    out.append('/-- measured: after the final handshake line exactly the bytes that follow it are re-joined -/')
+    out.append('def handoffRejoinsRest : Bool := %s' % ('true' if t['handoffRejoinsRest'] else 'false'))
+    out.append('/-- measured: the remainder length check does not apply to message bytes behind the final line -/')
+    out.append('def remainderCheckAfterLoop : Bool := %s' % ('true' if t['remainderCheckAfterLoop'] else 'false'))
+    out.append('')
+    out.append('-- how each constant was obtained: ' + ', '.join('%s=%s' % kv for kv in sorted(t['how'].items())))
     out.append('')
     out.append('end Txdbus.Gen.ProtoConst')
     return '\n'.join(out) + '\n'
